@@ -8,28 +8,16 @@
 A TLC counterexample on the registry becomes a VIOLATION only through a real call that fails its clause; if no
 real call confirms it, the check stops with a machinery error."""
 import copy
-import glob
 import hashlib
-import inspect
-import io
 import json
 import os
-import random
-import re
 import shutil
-import sys
-import time
-from fractions import Fraction
-from urllib.error import URLError
-
-import numpy as np
 
 import driver
 from driver import Check, main
-from vlib import MachineryError, NCPU, REPO, fxs, use_repo
+from vlib import MachineryError, NCPU
 import cachelib
-
-from cachelib import (extract_registry, registry_module, variants_of, World, one_load, REAL_SHA)  # noqa: E402
+from cachelib import DESC_DIR, REAL_SHA, World, extract_registry, one_load, registry_module, variants_of
 
 _ROOT = None
 _COUNTER = [0]
